@@ -10,7 +10,7 @@ CLAIMS = {
             "DESIGN §4 C11"),
     "C01": ('other', "contract chain K1..K9: pyvc VCs on the real lowering functions (lower_binary_op for all 19 operators as induction step over the expression tree, unary/comparison/logical lowerers, _is_boolean_producer), folding functions, the CSE key lemma and constant liveness (K4) and the decider/arithmetic emission (K8) (P) + bounded end-to-end validation of the real pipeline's blueprint (S2 circuit model) against the S3 source semantics by SMT over all int32 inputs (B)",
             'P obligations are discharged for all inputs; the program-shape quantifier is covered only by an enumerated scope (bounded stand-in, labelled, never counted as proved).',
-            'Trusted: S1/S2/S3 specs, pyvc encoding, composition lemma; ASSUMED contracts inside the chain (logical-chain folding, wire merge, IR builder constructors, draftsman constructors) are listed in the evidence; the wire-colour planner (K7) is not under contract; known findings are reported, not suppressed silently.',
+            'Trusted: S1/S2/S3 specs, pyvc encoding, composition lemma; ASSUMED contracts inside the chain (logical-chain folding, wire merge, IR builder constructors, draftsman constructors) are listed in the evidence; the wire-colour planner (K7) is under a bounded box only (its specification decides two-colourability independently); known findings are reported, not suppressed silently.',
             'DESIGN §4 C01'),
     "C10": ('other', 'relational pair lemma on the real CSE key functions + VCs on IR folding + liveness contract on _maybe_mark_dead (every reader kind; bounded list length) with its call-site precondition (pyvc) + bounded optimised-vs-unoptimised validation against S3 by SMT',
             'Key injectivity (equal keys => equal operator, operands, output type, output mode) is proved for every pair of paths of the real _make_key/_value_key; whole-pass behaviour is checked on an enumerated scope (bounded).',
